@@ -62,8 +62,10 @@ def to_fraction(v):
 class Algebra:
   """Term → sympy conversion with a stable atom table."""
 
-  def __init__(self, ev: sym.Evaluator = None, named=None, expand_globals=True, strip_index=True, opaque=None):
+  def __init__(self, ev: sym.Evaluator = None, named=None, expand_globals=True, strip_index=True, opaque=None, deep_globals=False):
     self.opaque = opaque
+    self.deep_globals = deep_globals
+    self._expanding = set()
     self.ev = ev
     self.atoms = {}      # Term -> Symbol
     self.rev = {}        # Symbol -> Term
@@ -129,6 +131,13 @@ class Algebra:
       d = self.ev.global_definition(t)
       if d.k == 'const' and isinstance(d.a[0], (int, float, Fraction)):
         return exact(d.a[0])
+      if self.deep_globals and (a[0], a[1]) not in self._expanding and d.k in ('bin', 'un', 'call', 'global', 'const'):
+        # module constants defined by arithmetic over other constants are expanded to their defining expression
+        self._expanding.add((a[0], a[1]))
+        try:
+          return self.conv(d)
+        finally:
+          self._expanding.discard((a[0], a[1]))
       return self.atom(t)
     if k == 'bin':
       op = a[0]
